@@ -42,7 +42,14 @@ Progs5b == {Cat(Pool[a], Scope(<<"A">>, Cat(Name("A"), Cat(Name("A"), Cat(W(Bina
 Progs5c == {Cat(Pool[a], Cat(W("dup"), Cat(Pool[b], W(Binary[w])))) : a \in 1..Len(Pool), b \in 1..Len(Pool), w \in 1..Len(Binary)}
 Progs5d == {Cat(Pool[a], Cat(W("dup"), Cat(W(Unary[w]), W("swap")))) : a \in 1..Len(Pool), w \in 1..Len(Unary)}
 
+\* binary words whose left / right operand carries a position other than 0: the result is numbered afresh
+Progs6a == {Cat(Pool[a], Cat(W("elem"), Cat(Pool[b], Cat(W(Binary[w]), W("pos"))))) :
+              a \in 1..Len(Pool), b \in 1..Len(Pool), w \in 1..Len(Binary)}
+Progs6b == {Cat(Pool[b], Cat(Pool[a], Cat(W("elem"), Cat(W(Binary[w]), W("pos"))))) :
+              a \in 1..Len(Pool), b \in 1..Len(Pool), w \in 1..Len(Binary)}
+
 All == SetToSeq(Progs1 \cup Progs2 \cup Progs3 \cup Progs4) \o SetToSeq(Progs5a) \o SetToSeq(Progs5b) \o SetToSeq(Progs5c) \o SetToSeq(Progs5d)
+       \o SetToSeq(Progs6a) \o SetToSeq(Progs6b)
 Mine == SelectSeq([j \in 1..Len(All) |-> [j |-> j, p |-> All[j]]], LAMBDA r: r.j % NShards = Shard)
 Vec(p) == LET r == Run(p) IN
           IF r.hard THEN <<>> ELSE <<[ast |-> p, den |-> r.out, lo |-> r.lo, hi |-> r.hi, ordered |-> TRUE, kind |-> "word"]>>
